@@ -160,3 +160,34 @@ package arvados
 //@   loop 1: invariant fn == old(fn) && size == old(size) && fn.repacked == old(fn.repacked) + 1 && fn.fileinfo.size == old(fn.fileinfo.size) && fn.segments == old(fn.segments)
 //@   loop 1: invariant ptr.segmentIdx <= i && 0 <= ptr.segmentIdx && (size < old(fn.fileinfo.size) ==> ptr.segmentIdx < len(fn.segments) && 0 <= ptr.segmentOff)
 //@   loop 2: invariant fn == old(fn) && size == old(size) && fn.repacked == old(fn.repacked) + 1 && fn.fileinfo.size <= size && size > old(fn.fileinfo.size)
+
+// ------------------------------- C09/C10: loading a manifest (range mapping)
+//@ func storedSegment.Len property C10 pure
+//@   modifies nothing
+//@   ensures result == se.length
+
+// stsum(r, o, k): total length of the first k stored segments (stream offset of block k).
+//@ spec func stsum(r $row[storedSegment], o int, k int) int64
+//@ axiom forall r $row[storedSegment], o int, k int :: {stsum(r, o, k)} k <= 0 ==> stsum(r, o, k) == 0
+//@ axiom forall r $row[storedSegment], o int, k int :: {stsum(r, o, k)} k > 0 ==> stsum(r, o, k) == stsum(r, o, k-1) + int64(r[ix(o, k-1)].length)
+
+// Creating directory entries does not touch the block list being parsed.
+//@ func dirnode.createFileAndParents trusted
+//@   modifies except(mem:storedSegment mem:string)
+//@ func filenode.appendSegment trusted
+//@   modifies filenode.segments filenode.fileinfo mem:segment
+
+// loadManifest, the mapping of one file token (offset, length) onto the blocks
+// of its stream.  `pos` is the stream offset of block segIdx (the cursor is
+// reset for every stream); every segment appended to the file lies inside one
+// block, starts at max(offset, pos) and ends at min(offset+length, next), and
+// is never empty (filenode.seek relies on that); a token reaching past the end
+// of the stream is an error.
+//@ func dirnode.loadManifest property C09,C10,C08 safety -bounds
+//@   loop 2: invariant 0 <= segIdx && segIdx <= len(segments) && pos == stsum(row(segments), rowoff(segments), segIdx) && (!anyFileTokens ==> pos == 0 && segIdx == 0)
+//@   loop 2: invariant forall j int :: 0 <= j && j < len(segments) ==> segments[j].offset == 0 && segments[j].length == segments[j].size && segments[j].size >= 0
+//@   loop 3: invariant 0 <= segIdx && segIdx <= len(segments) && pos == stsum(row(segments), rowoff(segments), segIdx) && anyFileTokens && offset >= 0 && length >= 0
+//@   loop 3: invariant forall j int :: 0 <= j && j < len(segments) ==> segments[j].offset == 0 && segments[j].length == segments[j].size && segments[j].size >= 0
+//@   calls filenode.appendSegment#1: requires istype($0, storedSegment) && unbox($0, storedSegment).length > 0 && unbox($0, storedSegment).offset >= 0 && unbox($0, storedSegment).offset + unbox($0, storedSegment).length <= unbox($0, storedSegment).size
+//@   calls filenode.appendSegment#1: requires pos + int64(unbox($0, storedSegment).offset) == max(offset, pos) && pos + int64(unbox($0, storedSegment).offset) + int64(unbox($0, storedSegment).length) == min(offset + length, next)
+//@   calls filenode.appendSegment#1: requires unbox($0, storedSegment).locator == seg.locator && unbox($0, storedSegment).size == seg.size && next == pos + int64(seg.length)
